@@ -171,7 +171,7 @@ Proof.
   assert (Hlower_alloc : forall l v, (ss_next st <= l)%nat -> forall o0, sc_live_in (sc_layers st) o0 ->
             sc_deref (sc_al_set Nat.eqb l v (ss_heap st)) o0 = sc_deref (ss_heap st) o0).
   { intros l v Hl o0 Ho. apply sc_deref_set_ne. destruct (Hsep o0 Ho) as [Hlt _]. lia. }
-  destruct o as [k|k t|k i|k|i t| | | |]; cbn [sc_step].
+  destruct o as [k|k t|k i|k|i t| | | | |k]; cbn [sc_step].
   - (* Get *)
     destruct (sc_lookup (sc_layers st) k) as [c|] eqn:El.
     + unfold sc_copy at 1. rewrite Hdeep.
@@ -313,6 +313,7 @@ Proof.
     intros o0 Ho. apply Hsep. apply sc_live_in_cons in Ho. destruct Ho as [(k & n & [] & _)|Ho].
     apply sc_live_in_cons in Ho. destruct Ho as [(k & n & [] & _)|Ho].
     apply sc_live_in_tail, sc_live_in_tail. exact Ho.
+  - (* rejected insert *) exact Hinv.
 Qed.
 
 Lemma sc_step_mode st o : ss_mode (fst (sc_step st o)) = ss_mode st.
@@ -372,7 +373,7 @@ Proof.
             sc_deref (sc_al_set Nat.eqb l2 v2 (sc_al_set Nat.eqb l1 v1 (ss_heap st))) o0 = sc_deref (ss_heap st) o0).
   { intros l1 v1 l2 v2 o0 H1 H2 Ho. destruct (Hsep o0 (sc_live_in_tail _ _ _ Ho)) as [Hlt _].
     rewrite !sc_deref_set_ne by lia. reflexivity. }
-  unfold sc_lower_same. destruct o as [k|k t|k i|k|i t| | | |]; try discriminate; cbn [sc_step].
+  unfold sc_lower_same. destruct o as [k|k t|k i|k|i t| | | | |k]; try discriminate; cbn [sc_step].
   - destruct (sc_lookup (sc_layers st) k) as [c|].
     + unfold sc_copy. destruct (md_clone_deep (ss_mode st)), (md_copy_deep (ss_mode st)); cbn [fst sc_upd ss_bc ss_sc ss_tblk ss_tbase ss_heap];
         repeat split; intros o0 Ho; auto.
@@ -389,6 +390,7 @@ Proof.
     cbn [fst sc_upd ss_bc ss_sc ss_tblk ss_tbase ss_heap]. repeat split. intros o0 Ho.
     apply sc_deref_set_ne. destruct (Hsep o0 (sc_live_in_tail _ _ _ Ho)) as [_ Hne].
     intros Heq. apply (Hne v (nth_error_In _ _ Ev)). auto.
+  - repeat split; auto.
 Qed.
 
 Lemma sc_lower_same_trans a b c : sc_lower_same a b -> sc_lower_same b c -> sc_lower_same a c.
